@@ -217,8 +217,8 @@ func (r *runner) run() {
 			for j < len(steps) && steps[j].Pipe && steps[j].Conn == st.Conn && steps[j].Block == 0 {
 				j++
 			}
-			if j < len(steps) && steps[j].Conn == st.Conn && steps[j].Block == 0 && isRequestOp(steps[j].Op) {
-				j++ // the burst ends with the first non-pipelined request of that connection
+			if j < len(steps) && steps[j].Conn == st.Conn && steps[j].Block == 0 && (isRequestOp(steps[j].Op) || steps[j].Op == "close") {
+				j++ // the burst ends with the first non-pipelined step of that connection (a request, a switch or a close)
 			}
 			r.runBurst(steps[i:j])
 			i = j
@@ -398,26 +398,33 @@ func (r *runner) noteS0(st *Step) {
 	r.res.InS0[r.stepIdx] = in
 }
 
-func (r *runner) afterRequest(st *Step, c *Client, out *Outcome) {
-	if st.Op == "join" && out.Accepted {
-		// which symbolic session does that uuid stand for (stream tags of the differential checks)
-		if mc := r.m.conn(st.Conn); mc.Session != nil {
-			sym := st.Sess
-			if old, ok := r.w.symOf[mc.Session.UUID]; ok {
-				sym = old
-			}
-			r.w.symOf[mc.Session.UUID] = sym
-			for i := len(c.Stream) - 1; i >= 0; i-- {
-				if c.Stream[i].Type == 4 {
-					for _, it := range c.Stream[i:] {
-						if it.Sym == "" {
-							it.Sym = sym
-						}
-					}
-					break
+// afterJoinTags records which symbolic session a uuid stands for (stream tags of the
+// differential checks).
+func (r *runner) afterJoinTags(st *Step, c *Client) {
+	mc := r.m.conn(st.Conn)
+	if mc.Session == nil {
+		return
+	}
+	sym := st.Sess
+	if old, ok := r.w.symOf[mc.Session.UUID]; ok {
+		sym = old
+	}
+	r.w.symOf[mc.Session.UUID] = sym
+	for i := len(c.Stream) - 1; i >= 0; i-- {
+		if c.Stream[i].Type == 4 {
+			for _, it := range c.Stream[i:] {
+				if it.Sym == "" {
+					it.Sym = sym
 				}
 			}
+			break
 		}
+	}
+}
+
+func (r *runner) afterRequest(st *Step, c *Client, out *Outcome) {
+	if st.Op == "join" && out.Accepted {
+		r.afterJoinTags(st, c)
 	}
 	for _, v := range out.Viol {
 		r.violate(v)
